@@ -131,15 +131,69 @@ func (a *Act) intrinsic(name string, fv FuncV, args []Value) (Value, bool) {
 		if s0.conc && pre.conc {
 			return BoolC(strings.HasPrefix(s0.s, pre.s)), true
 		}
+		if pre.conc && !s0.conc {
+			if t, ok := mapStrLeavesTerm(s0.id, func(x string) *Term { return BoolC(strings.HasPrefix(x, pre.s)) }); ok {
+				return t, true
+			}
+		}
 		return UF("strings.HasPrefix", BoolSort, strID(s0), strID(pre)), true
 	case "strings.TrimPrefix":
 		s0, pre := args[0].(StrV), args[1].(StrV)
 		if s0.conc && pre.conc {
 			return ConcStr(strings.TrimPrefix(s0.s, pre.s)), true
 		}
+		if pre.conc && !s0.conc {
+			if t, ok := mapStrLeavesTerm(s0.id, func(x string) *Term { return strID(ConcStr(strings.TrimPrefix(x, pre.s))) }); ok {
+				return StrV{id: t}, true
+			}
+		}
 		return StrV{id: UF("strings.TrimPrefix", BVS(32), strID(s0), strID(pre))}, true
+	case "strings.TrimLeft", "strings.TrimRight", "strings.TrimSuffix", "strings.Trim":
+		s0, cut := args[0].(StrV), args[1].(StrV)
+		f := map[string]func(string, string) string{"strings.TrimLeft": strings.TrimLeft, "strings.TrimRight": strings.TrimRight, "strings.TrimSuffix": strings.TrimSuffix, "strings.Trim": strings.Trim}[name]
+		if s0.conc && cut.conc {
+			return ConcStr(f(s0.s, cut.s)), true
+		}
+		if cut.conc && !s0.conc {
+			if t, ok := mapStrLeavesTerm(s0.id, func(x string) *Term { return strID(ConcStr(f(x, cut.s))) }); ok {
+				return StrV{id: t}, true
+			}
+		}
+		return StrV{id: UF(name, BVS(32), strID(s0), strID(cut))}, true
+	case "strings.TrimSpace":
+		s0 := args[0].(StrV)
+		if s0.conc {
+			return ConcStr(strings.TrimSpace(s0.s)), true
+		}
+		if t, ok := mapStrLeavesTerm(s0.id, func(x string) *Term { return strID(ConcStr(strings.TrimSpace(x))) }); ok {
+			return StrV{id: t}, true
+		}
+		return StrV{id: UF(name, BVS(32), strID(s0))}, true
 	case "strconv.ParseInt":
 		s0 := args[0].(StrV)
+		if b, okb := args[1].(*Term); okb && b.IsConst() && (s0.conc || s0.id.op == "ite") {
+			// concrete strings (or a choice among constants): the real result
+			parse := func(x string) (uint64, bool) {
+				v, err := strconv.ParseInt(x, int(b.val), 64)
+				return uint64(v), err != nil
+			}
+			var vt, bt *Term
+			ok1 := true
+			if s0.conc {
+				v, bad := parse(s0.s)
+				vt, bt = BV(64, v), BoolC(bad)
+			} else {
+				vt, ok1 = mapStrLeavesTerm(s0.id, func(x string) *Term { v, _ := parse(x); return BV(64, v) })
+				if ok1 {
+					bt, ok1 = mapStrLeavesTerm(s0.id, func(x string) *Term { _, bad := parse(x); return BoolC(bad) })
+				}
+			}
+			if ok1 {
+				tag := "strconv.NumError"
+				errv := IfaceV{alts: []IfaceAlt{{g: bt, typ: in.opaqueType(tag), val: OpaqueV{tag: tag}}}, nilG: Not(bt)}
+				return TupleV{Ite(bt, BV(64, 0), vt), errv}, true
+			}
+		}
 		val := UF("strconv.ParseInt.value", BVS(64), strID(s0))
 		bad := UF("strconv.ParseInt.fails", BoolSort, strID(s0))
 		tag := "strconv.NumError"
@@ -842,4 +896,24 @@ func (a *Act) condGhost(c PtrV) int {
 		a.st.heap[id] = VS{Value(BV(8, 0)), -id}
 	}
 	return id
+}
+
+// mapStrLeavesTerm maps every leaf of an ite-tree of interned string constants to a term.
+func mapStrLeavesTerm(t *Term, f func(string) *Term) (*Term, bool) {
+	if t.IsConst() {
+		str, ok := strByID(t.val)
+		if !ok {
+			return nil, false
+		}
+		return f(str), true
+	}
+	if t.op == "ite" {
+		a, ok1 := mapStrLeavesTerm(t.args[1], f)
+		b, ok2 := mapStrLeavesTerm(t.args[2], f)
+		if !ok1 || !ok2 {
+			return nil, false
+		}
+		return Ite(t.args[0], a, b), true
+	}
+	return nil, false
 }
